@@ -1,0 +1,18 @@
+//go:build verif
+
+package v2
+
+// Contracts for the deductive verifier in /verif (comment-only).
+
+//@ pred quiet() { len(calls) == old(len(calls)) }
+//@ pred one_more() { len(calls) == old(len(calls)) + 1 && (forall j int :: 0 <= j && j < old(len(calls)) ==> calls[j] == old(calls[j])) }
+
+// The generated one-way client call is used by the reporter through this
+// ASSUMED contract: one call hands exactly one batch (these metrics, these
+// common tags) to the transport as one message and does not touch the batch.
+//@ func (*M3Client).EmitMetricBatchV2
+//@   property C13, C12
+//@   trusted
+//@   emits
+//@   requires p != nil
+//@   ensures @one_message_with_this_batch one_more() && calls[old(len(calls))] == evn("m3.emit", p, arrof(batch.Metrics), len(batch.Metrics), arrof(batch.CommonTags), len(batch.CommonTags))
